@@ -733,6 +733,9 @@ class CostExec(SymExec):
     def trip_count(self, it):
         if isinstance(it, ast.Call) and U(it.func) == 'range':
             try:
+                for n in ast.walk(it):
+                    if isinstance(n, ast.Name) and isinstance(self.env.get(n.id), Opaque) and not self.vectors:
+                        return None            # a bound re-bound to something outside the scalar dialect is not the symbol of that name
                 if len(it.args) == 1:
                     return self.evaluator().ev(it.args[0])
                 if len(it.args) == 2:
